@@ -3,6 +3,7 @@
 # Apply a seeded change to a scratch worktree, run the given checks against it, restore the worktree.
 WT=$1; PATCH=$2; shift 2
 git -C "$WT" checkout -q -- . && git -C "$WT" clean -fdq
+git -C "$WT" checkout -q --detach "$(git -C /repo rev-parse HEAD)"
 git -C "$WT" apply "$PATCH" || { echo "patch does not apply"; exit 2; }
 /verif/tools/mutant_run.sh "$WT" "$@" 2>&1 | grep -E "^(OK|VIOLATION|ORACLE|BROKEN|KNOWN)" | cut -c1-400 | awk '/^ORACLE/{n++; if(n>5) next} {print}' 
 git -C "$WT" checkout -q -- . && git -C "$WT" clean -fdq
